@@ -4,7 +4,7 @@ from __future__ import annotations
 from decimal import Decimal
 from fractions import Fraction
 
-from .. import core, kit, model, oracle
+from .. import core, kit, model, oracle, synth
 
 ID = "C12"
 LEVEL = "exploration"
@@ -249,6 +249,8 @@ def run(ctx):
     declared_from_a_prefixed_side(ctx, env)
     temperatures(ctx, env)
     levels(ctx, env)
+    levels_written_in_other_logarithmic_units(ctx, env)
+    hashes_after_storage_and_editing(ctx, env)
     exact_magnitudes(ctx, env)
     ladders(ctx, env)
     for e in ctx.known:
@@ -269,6 +271,128 @@ def run(ctx):
     ctx.require("away_from_ties", 100)
     ctx.require("hash_checks", 5)
     ctx.require("pairs/M-M", 100)
+
+
+HASHING_WRITER = r"""
+import sys, json, base64, pickle
+from vmon import boot
+b = boot.boot()
+m = b.measured
+U, P, Q = m.Unit._by_name, m.Prefix._by_name, m.Quantity
+cases = json.loads(sys.stdin.read())
+qs = []
+for mag, prefix, unit, exponent in cases:
+    u = U[unit] ** exponent
+    if prefix:
+        u = P[prefix] * u
+    qs.append(Q(mag, u))
+hashes = [hash(q) for q in qs]                    # the writer used them as keys before it stored them
+as_keys = {q: i for i, q in enumerate(qs)}
+as_set = set(qs)
+print(base64.b64encode(pickle.dumps({"list": qs, "dict": as_keys, "set": as_set}, int(sys.argv[1]))).decode())
+"""
+
+
+def hashes_after_storage_and_editing(ctx, env):
+    """equal quantities hash equal also when one of them was hashed earlier: by another process that then stored it
+    (a pickled dict keyed by quantities, a pickled set), or by this one before the quantity was edited in place or copied"""
+    import base64, copy, json, pickle, subprocess, sys
+    m, rng = env.m, ctx.rng
+    U, P, Q = m.Unit._by_name, m.Prefix._by_name, m.Quantity
+    names = [n for n in ("meter", "second", "gram", "newton", "joule", "watt", "volt", "foot", "hour", "byte", "pascal") if n in U]
+    prefixes = [None, None, "kilo", "milli", "micro", "mega", "kibi"]
+    cases = []
+    for _ in range(40 if ctx.tier == "quick" else 400):
+        cases.append([rng.choice([1, 2, 5, 1000, 0.5, 2.25, -3, 10 ** 6]), rng.choice(prefixes), rng.choice(names), rng.choice([1, 1, 2, -1])])
+
+    def fresh(case):
+        mag, prefix, unit, exponent = case
+        u = U[unit] ** exponent
+        return Q(mag, P[prefix] * u if prefix else u)
+
+    # (a) written by another process, after it had hashed them
+    for protocol in (2, 5):
+        try:
+            p = subprocess.run([sys.executable, "-B", "-c", HASHING_WRITER, str(protocol)], input=json.dumps(cases), capture_output=True, text=True, timeout=300, env=synth.child_env())
+            stored = pickle.loads(base64.b64decode(p.stdout))
+        except Exception as e:
+            ctx.count(f"hashing_writer_failed/{type(e).__name__}")
+            continue
+        ctx.count("stores_written_by_another_process")
+        for i, case in enumerate(cases):
+            f, loaded = fresh(case), stored["list"][i]
+            ctx.count("evaluations")
+            ctx.count("hash_checks_on_stored_quantities")
+            c = {"case": case, "protocol": protocol}
+            if not (loaded == f and f == loaded):
+                ctx.violation("C12:stored-quantity-unequal-to-the-same-quantity-built-here", f"{loaded!r} read from a store != {f!r}", c)
+                continue
+            if hash(loaded) != hash(f):
+                ctx.violation("C12:equal-but-hash-differs:hashed-before-it-was-stored", f"{loaded!r} (hashed by the writer, then pickled) == {f!r} but the hashes differ", c)
+                continue
+            if f not in stored["set"] or f not in stored["dict"] or loaded not in {f}:
+                ctx.violation("C12:equal-but-not-found-in-a-stored-set-or-dict", f"{f!r} is not found among the keys read from the store although an equal key is there", c)
+    # (b) hashed here, then edited in place / copied and edited
+    for case in cases:
+        q = fresh(case)
+        hash(q)
+        {q: 1}
+        other = rng.choice([7, 0.125, case[0] * 2])
+        how = rng.choice(["edit-magnitude", "copy-then-edit", "deepcopy-then-edit", "edit-unit"])
+        try:
+            if how == "copy-then-edit":
+                q = copy.copy(q)
+            elif how == "deepcopy-then-edit":
+                q = copy.deepcopy(q)
+            if how == "edit-unit":
+                q.unit = U["candela"]
+                f = Q(case[0], U["candela"])
+            else:
+                q.magnitude = other
+                f = fresh([other] + case[1:])
+        except AttributeError:
+            ctx.count("quantities_that_refuse_in_place_edits")
+            continue
+        ctx.count("evaluations")
+        ctx.count("hash_checks_after_in_place_edits")
+        ctx.distinct(("hash-after", how))
+        if q == f and f == q and hash(q) != hash(f):
+            ctx.violation("C12:equal-but-hash-differs:hashed-before-it-was-edited", f"{q!r} ({how} after hash()) == {f!r} but the hashes differ", {"case": case, "how": how})
+
+
+def levels_written_in_other_logarithmic_units(ctx, env):
+    """two levels that denote nearly the same quantity, written in different logarithmic units (dB, B, Np; other
+    references): whatever == answers, it answers the same in both orders, and != is its negation"""
+    import math
+    m, rng = env.m, ctx.rng
+    U = m.Unit._by_name
+    P = env.pools.prefixes
+    refs = [1 * U["watt"], 1 * (P["milli"] * U["watt"]), 1 * U["volt"], 20 * (P["micro"] * U["pascal"])]
+    logs = [m.Decibel, m.Bel, m.Neper]
+    for _ in range(400 if ctx.tier == "quick" else 20000):
+        ref = rng.choice(refs)
+        ref2 = rng.choice([r for r in refs if r.unit.dimension is ref.unit.dimension])
+        la, lb = rng.choice(logs)[ref], rng.choice(logs)[ref2]
+        x = rng.choice([0, 0, 3, 10, -20, 6.5, 30, 1e-9, 0.25]) * la
+        try:
+            q = x.quantify()
+            eps = rng.choice([0, 1e-15, 1e-13, 1e-12, 1e-11, 1e-10, 5e-10, 1e-9, 2e-9, 1e-8, 1e-7, 1e-6]) * rng.choice([1, -1, 2.5])
+            y = (q * (1 + eps)).level(lb)
+            if rng.random() < 0.3 and abs(y.magnitude) < 1e-6:
+                y = rng.choice([5e-10, -5e-10, 2e-10, 9e-10, 1.5e-9, 1e-10]) * lb      # written directly, next to a level of 0
+        except Exception as e:
+            ctx.count(f"near_levels_not_built/{type(e).__name__}")
+            continue
+        ctx.count("evaluations")
+        ctx.count("pairs/L-L-nearly-equal")
+        try:
+            e1, e2, n1, n2 = x == y, y == x, x != y, y != x
+        except Exception as e:
+            ctx.violation(f"C12:L-L:comparison-raised:{type(e).__name__}", f"{x!r} == {y!r} raised {type(e).__name__}: {e}", {"x": repr(x), "y": repr(y)})
+            continue
+        ctx.distinct(("near-levels", str(la), str(lb), e1))
+        if e1 != e2 or n1 != n2 or e1 == n1:
+            ctx.violation("C12:L-L:eq-not-symmetric", f"{x!r} == {y!r} is {e1}, reverse {e2}; != {n1}/{n2}", {"x": repr(x), "y": repr(y), "eps": eps})
 
 
 def declared_from_a_prefixed_side(ctx, env):
